@@ -115,6 +115,101 @@ fn cks(bs: &[u8]) -> String {
     c.value()
 }
 
+/// The expected bytes of a large case, never written down whole: the pattern
+/// `pat(a, d, ..)` (periodic with period 36*36), `len` bytes of it.
+#[derive(Clone)]
+struct Region {
+    base: Bytes,
+    len: usize,
+}
+const PERIOD: usize = 36 * 36;
+impl Region {
+    fn new(a: u64, d: u64, len: usize) -> Region {
+        Region { base: Bytes::from(pat(a, d, PERIOD * 1024)), len }
+    }
+    /// does `bs` equal bytes [off, off+len(bs)) of the region?
+    fn matches_at(&self, mut off: usize, mut bs: &[u8]) -> bool {
+        if off.checked_add(bs.len()).map_or(true, |e| e > self.len) {
+            return false;
+        }
+        while !bs.is_empty() {
+            let p = off % PERIOD;
+            let take = bs.len().min(self.base.len() - p);
+            if bs[..take] != self.base[p..p + take] {
+                return false;
+            }
+            bs = &bs[take..];
+            off += take;
+        }
+        true
+    }
+    /// bytes [off, off+n) as a zero-copy frame (n < base length - period)
+    fn slice(&self, off: usize, n: usize) -> Bytes {
+        let p = off % PERIOD;
+        self.base.slice(p..p + n)
+    }
+}
+
+/// How a handler summarises the bytes it received: the checksum (ordinary
+/// cases: Coq recomputes it from the body), or, for large cases, a direct
+/// byte comparison with the expected region, reported as "1" (all received
+/// bytes are the region's initial part) or "0".
+enum Check {
+    Sum(Cks),
+    Against { region: Region, off: usize, ok: bool },
+}
+impl Check {
+    fn new(expect: Option<Region>) -> Check {
+        match expect {
+            None => Check::Sum(Cks::new()),
+            Some(region) => Check::Against { region, off: 0, ok: true },
+        }
+    }
+    fn update(&mut self, bs: &[u8]) {
+        match self {
+            Check::Sum(c) => c.update(bs),
+            Check::Against { region, off, ok } => {
+                if *ok && !region.matches_at(*off, bs) {
+                    *ok = false;
+                }
+                *off += bs.len();
+            }
+        }
+    }
+    fn value(&self) -> String {
+        match self {
+            Check::Sum(c) => c.value(),
+            Check::Against { ok, .. } => (if *ok { "1" } else { "0" }).to_string(),
+        }
+    }
+    fn of(expect: Option<Region>, bs: &[u8]) -> String {
+        let mut c = Check::new(expect);
+        c.update(bs);
+        c.value()
+    }
+}
+
+/// the body of a direct run: in memory, or (gibibytes) virtual
+#[derive(Clone)]
+enum VBody {
+    Mat(Bytes),
+    Virt(Region),
+}
+impl VBody {
+    fn len(&self) -> usize {
+        match self {
+            VBody::Mat(b) => b.len(),
+            VBody::Virt(r) => r.len,
+        }
+    }
+    fn slice(&self, off: usize, n: usize) -> Bytes {
+        match self {
+            VBody::Mat(b) => b.slice(off..off + n),
+            VBody::Virt(r) => r.slice(off, n),
+        }
+    }
+}
+
 const MP_PREFIX: &[u8] = b"--XB\r\nContent-Disposition: form-data; name=\"f\"\r\n\r\n";
 const MP_SUFFIX: &[u8] = b"\r\n--XB--";
 
@@ -243,11 +338,11 @@ fn g_hobs(h: &HObs) -> String {
     }
 }
 
-async fn consume_stream(body: StreamingBody) -> (HObs, Option<HttpError>) {
+async fn consume_stream(body: StreamingBody, expect: Option<Region>) -> (HObs, Option<HttpError>) {
     let stream = body.into_stream();
     tokio::pin!(stream);
     let mut sizes = vec![];
-    let mut c = Cks::new();
+    let mut c = Check::new(expect);
     while let Some(item) = stream.next().await {
         match item {
             Ok(b) => {
@@ -265,10 +360,10 @@ async fn consume_stream(body: StreamingBody) -> (HObs, Option<HttpError>) {
 
 /// reads every field to its end; multer errors (which wrap the stream's
 /// HttpError) are mapped to a 400
-async fn consume_multipart(body: MultipartBody) -> (HObs, Option<HttpError>) {
+async fn consume_multipart(body: MultipartBody, expect: Option<Region>) -> (HObs, Option<HttpError>) {
     let mut mp = body.content;
     let mut flen = 0usize;
-    let mut c = Cks::new();
+    let mut c = Check::new(expect);
     loop {
         match mp.next_field().await {
             Ok(Some(mut field)) => loop {
@@ -316,9 +411,11 @@ enum Cut {
 struct DirectJob {
     x: X,
     ov: Option<u64>,
-    body: Arc<Vec<u8>>,
+    body: VBody,
     cuts: Vec<Cut>,
     hdr: u8,
+    /// large cases: compare what is delivered with this instead of summing
+    expect: Option<Region>,
 }
 
 #[derive(Default)]
@@ -328,6 +425,8 @@ struct Ctx {
     jobs: Mutex<Vec<DirectJob>>,
     results: Mutex<Vec<(HObs, usize)>>,
     caps: Mutex<HashMap<u64, (Option<usize>, usize)>>,
+    /// large live cases: the region request `x-case: N` is expected to deliver
+    expect: Mutex<HashMap<u64, Region>>,
 }
 
 fn case_id<C: ServerContext>(rqctx: &RequestContext<C>) -> u64 {
@@ -339,6 +438,9 @@ fn case_id<C: ServerContext>(rqctx: &RequestContext<C>) -> u64 {
         .and_then(|s| s.parse().ok())
         .unwrap_or(u64::MAX)
 }
+fn expected(rqctx: &RequestContext<Ctx>) -> Option<Region> {
+    rqctx.context().expect.lock().unwrap().get(&case_id(rqctx)).cloned()
+}
 fn record(rqctx: &RequestContext<Ctx>, h: HObs) {
     rqctx.context().log.lock().unwrap().insert(case_id(rqctx), h);
 }
@@ -348,7 +450,7 @@ async fn h_json(
     body: TypedBody<String>,
 ) -> Result<HttpResponseOk<()>, HttpError> {
     let s = body.into_inner();
-    record(&rqctx, HObs::Buf(s.len(), cks(s.as_bytes())));
+    record(&rqctx, HObs::Buf(s.len(), Check::of(expected(&rqctx), s.as_bytes())));
     Ok(HttpResponseOk(()))
 }
 async fn h_form(
@@ -356,7 +458,7 @@ async fn h_form(
     body: TypedBody<FormS>,
 ) -> Result<HttpResponseOk<()>, HttpError> {
     let s = body.into_inner().s;
-    record(&rqctx, HObs::Buf(s.len(), cks(s.as_bytes())));
+    record(&rqctx, HObs::Buf(s.len(), Check::of(expected(&rqctx), s.as_bytes())));
     Ok(HttpResponseOk(()))
 }
 async fn h_untyped(
@@ -364,7 +466,7 @@ async fn h_untyped(
     body: UntypedBody,
 ) -> Result<HttpResponseOk<()>, HttpError> {
     let b = body.as_bytes();
-    record(&rqctx, HObs::Buf(b.len(), cks(b)));
+    record(&rqctx, HObs::Buf(b.len(), Check::of(expected(&rqctx), b)));
     Ok(HttpResponseOk(()))
 }
 async fn h_streaming(
@@ -373,7 +475,7 @@ async fn h_streaming(
 ) -> Result<HttpResponseOk<()>, HttpError> {
     // entered before any byte is read
     record(&rqctx, HObs::Stream { sizes: vec![], cks: "1".into(), err: None });
-    let (h, e) = consume_stream(body).await;
+    let (h, e) = consume_stream(body, expected(&rqctx)).await;
     record(&rqctx, h);
     match e {
         Some(e) => Err(e),
@@ -385,7 +487,7 @@ async fn h_multipart(
     body: MultipartBody,
 ) -> Result<HttpResponseOk<()>, HttpError> {
     record(&rqctx, HObs::Multi { flen: 0, fcks: "1".into(), err: false });
-    let (h, e) = consume_multipart(body).await;
+    let (h, e) = consume_multipart(body, expected(&rqctx)).await;
     record(&rqctx, h);
     match e {
         Some(e) => Err(e),
@@ -447,14 +549,14 @@ impl hyper::body::Body for FramesBody {
     }
 }
 
-fn frames_of(body: &[u8], cuts: &[Cut]) -> VecDeque<FrameSpec> {
+fn frames_of(body: &VBody, cuts: &[Cut]) -> VecDeque<FrameSpec> {
     let mut i = 0usize;
     let mut out = VecDeque::new();
     for c in cuts {
         match c {
             Cut::D(n) => {
                 let e = (i + n).min(body.len());
-                out.push_back(FrameSpec::Data(Bytes::copy_from_slice(&body[i..e])));
+                out.push_back(FrameSpec::Data(body.slice(i, e - i)));
                 i = e;
             }
             Cut::T => out.push_back(FrameSpec::Trailers),
@@ -509,27 +611,27 @@ async fn run_direct(rqctx: &mut RequestContext<Ctx>, job: &DirectJob) -> (HObs, 
         X::Json => match TypedBody::<String>::from_request(rq2, request).await {
             Ok(b) => {
                 let s = b.into_inner();
-                HObs::Buf(s.len(), cks(s.as_bytes()))
+                HObs::Buf(s.len(), Check::of(job.expect.clone(), s.as_bytes()))
             }
             Err(e) => HObs::Refused(status_of(&e)),
         },
         X::Form => match TypedBody::<FormS>::from_request(rq2, request).await {
             Ok(b) => {
                 let s = b.into_inner().s;
-                HObs::Buf(s.len(), cks(s.as_bytes()))
+                HObs::Buf(s.len(), Check::of(job.expect.clone(), s.as_bytes()))
             }
             Err(e) => HObs::Refused(status_of(&e)),
         },
         X::Untyped => match UntypedBody::from_request(rq2, request).await {
-            Ok(b) => HObs::Buf(b.as_bytes().len(), cks(b.as_bytes())),
+            Ok(b) => HObs::Buf(b.as_bytes().len(), Check::of(job.expect.clone(), b.as_bytes())),
             Err(e) => HObs::Refused(status_of(&e)),
         },
         X::Streaming => match StreamingBody::from_request(rq2, request).await {
-            Ok(b) => consume_stream(b).await.0,
+            Ok(b) => consume_stream(b, job.expect.clone()).await.0,
             Err(e) => HObs::Refused(status_of(&e)),
         },
         X::Multipart => match MultipartBody::from_request(rq2, request).await {
-            Ok(b) => consume_multipart(b).await.0,
+            Ok(b) => consume_multipart(b, job.expect.clone()).await.0,
             Err(e) => HObs::Refused(status_of(&e)),
         },
     };
@@ -685,28 +787,86 @@ enum Framing {
 #[serde(tag = "t")]
 enum Case {
     Select { ov: Option<u64>, def: u64, via_router: bool },
-    Direct { x: X, ov: Option<u64>, def: u64, body: Vec<Seg>, runs: Vec<DRunSpec> },
-    Live { x: X, ov: Option<u64>, def: u64, body: Vec<Seg>, runs: Vec<Framing>, #[serde(default)] via_macro: bool },
+    Direct {
+        x: X,
+        ov: Option<u64>,
+        def: u64,
+        body: Vec<Seg>,
+        runs: Vec<DRunSpec>,
+        #[serde(default)]
+        tags: Vec<String>,
+    },
+    Live {
+        x: X,
+        ov: Option<u64>,
+        def: u64,
+        body: Vec<Seg>,
+        runs: Vec<Framing>,
+        #[serde(default)]
+        via_macro: bool,
+        #[serde(default)]
+        tags: Vec<String>,
+    },
+    /// a body too large to hand to Coq byte by byte (above 64 KiB+1, up to
+    /// gibibytes): judged on lengths; byte equality checked here
+    Abs {
+        x: X,
+        ov: Option<u64>,
+        def: u64,
+        body: Vec<Seg>,
+        runs: Vec<AbsRunSpec>,
+        #[serde(default)]
+        tags: Vec<String>,
+    },
+}
+#[derive(Serialize, Deserialize, Clone, Debug)]
+#[serde(tag = "m", rename_all = "lowercase")]
+enum AbsRunSpec {
+    /// direct run on data frames given run-length encoded: (size, count)
+    Direct { frames: Vec<(usize, usize)> },
+    Live { framing: Framing },
 }
 
 fn g_cuts(cuts: &[Cut]) -> String {
-    if cuts.iter().all(|c| matches!(c, Cut::D(_))) {
-        format!(
-            "(ds {})",
-            g_rl(&cuts
-                .iter()
-                .map(|c| match c {
-                    Cut::D(n) => *n,
-                    _ => unreachable!(),
-                })
-                .collect::<Vec<_>>())
-        )
+    // maximal runs of data frames in run-length notation, the other frames
+    // literally: (ds (rl [(1,65537)]) ++ [KTrailers])
+    let mut parts: Vec<String> = vec![];
+    let mut data: Vec<usize> = vec![];
+    let mut other: Vec<&Cut> = vec![];
+    let flush_data = |data: &mut Vec<usize>, parts: &mut Vec<String>| {
+        if !data.is_empty() {
+            parts.push(format!("ds {}", g_rl(data)));
+            data.clear();
+        }
+    };
+    let flush_other = |other: &mut Vec<&Cut>, parts: &mut Vec<String>| {
+        if !other.is_empty() {
+            parts.push(g_list(other, |c| match c {
+                Cut::T => "KTrailers".to_string(),
+                Cut::E => "KErr".to_string(),
+                Cut::D(n) => format!("KData {}", n),
+            }));
+            other.clear();
+        }
+    };
+    for c in cuts {
+        match c {
+            Cut::D(n) => {
+                flush_other(&mut other, &mut parts);
+                data.push(*n);
+            }
+            c => {
+                flush_data(&mut data, &mut parts);
+                other.push(c);
+            }
+        }
+    }
+    flush_data(&mut data, &mut parts);
+    flush_other(&mut other, &mut parts);
+    if parts.is_empty() {
+        "[]".to_string()
     } else {
-        g_list(cuts, |c| match c {
-            Cut::D(n) => format!("KData {}", n),
-            Cut::T => "KTrailers".to_string(),
-            Cut::E => "KErr".to_string(),
-        })
+        format!("({})", parts.join(" ++ "))
     }
 }
 
@@ -728,6 +888,40 @@ fn size_tag(len: usize, cap: u64) -> String {
         "len>cap"
     })
     .to_string()
+}
+
+/// one live request; `expect`: large case, the handler compares with this region
+fn live_run(
+    s: &mut Server,
+    x: X,
+    path: &str,
+    bytes: &[u8],
+    f: &Framing,
+    expect: Option<Region>,
+) -> (u16, HObs, bool, bool) {
+    let id = s.fresh();
+    let ids = id.to_string();
+    let hdrs = [("content-type", x.request_ct()), ("x-case", ids.as_str())];
+    let req = match f {
+        Framing::Cl => request("PUT", path, &hdrs, Some(bytes)),
+        Framing::Chunked { sizes, .. } => request_chunked("PUT", path, &hdrs, bytes, sizes),
+    };
+    if let Some(r) = expect {
+        s.ctx().expect.lock().unwrap().insert(id, r);
+    }
+    let mut retried = false;
+    let mut st = send_once(s.addr, &req);
+    if st == 0 {
+        // no response at all (reset / timeout on a loaded machine): one more
+        // attempt, reported in the tags
+        retried = true;
+        s.ctx().log.lock().unwrap().remove(&id);
+        st = send_once(s.addr, &req);
+    }
+    let h = s.ctx().log.lock().unwrap().remove(&id).unwrap_or(HObs::Refused(st));
+    s.ctx().expect.lock().unwrap().remove(&id);
+    let healthy = s.healthy();
+    (st, h, healthy, retried)
 }
 
 struct World {
@@ -776,12 +970,19 @@ fn run_case(w: &mut World, case: &Case, group: &'static str, out: &mut dyn Write
                 },
             );
         }
-        Case::Direct { x, ov, def, body, runs } => {
-            let bytes = Arc::new(expand(body));
+        Case::Direct { x, ov, def, body, runs, tags: ctags } => {
+            let bytes = Bytes::from(expand(body));
             let s = w.servers.get_mut(def).expect("server");
             let jobs: Vec<DirectJob> = runs
                 .iter()
-                .map(|r| DirectJob { x: *x, ov: *ov, body: bytes.clone(), cuts: r.cuts.clone(), hdr: r.hdr })
+                .map(|r| DirectJob {
+                    x: *x,
+                    ov: *ov,
+                    body: VBody::Mat(bytes.clone()),
+                    cuts: r.cuts.clone(),
+                    hdr: r.hdr,
+                    expect: None,
+                })
                 .collect();
             let res = match catch(|| s.direct(jobs)) {
                 Ok(r) => r,
@@ -807,6 +1008,7 @@ fn run_case(w: &mut World, case: &Case, group: &'static str, out: &mut dyn Write
                 size_tag(bytes.len(), cap),
                 if ov.is_some() { "override".into() } else { "default".into() },
             ];
+            tags.extend(ctags.iter().cloned());
             if runs.iter().any(|r| r.cuts.iter().any(|c| matches!(c, Cut::E))) {
                 tags.push("has-error-frame".into());
             }
@@ -839,7 +1041,7 @@ fn run_case(w: &mut World, case: &Case, group: &'static str, out: &mut dyn Write
                 },
             );
         }
-        Case::Live { x, ov, def, body, runs, via_macro } => {
+        Case::Live { x, ov, def, body, runs, via_macro, tags: ctags } => {
             let bytes = expand(body);
             let s = w.servers.get_mut(def).expect("server");
             let path = if *via_macro {
@@ -850,23 +1052,8 @@ fn run_case(w: &mut World, case: &Case, group: &'static str, out: &mut dyn Write
             let mut res = vec![];
             let mut retried = false;
             for f in runs {
-                let id = s.fresh();
-                let ids = id.to_string();
-                let hdrs = [("content-type", x.request_ct()), ("x-case", ids.as_str())];
-                let req = match f {
-                    Framing::Cl => request("PUT", &path, &hdrs, Some(&bytes)),
-                    Framing::Chunked { sizes, .. } => request_chunked("PUT", &path, &hdrs, &bytes, sizes),
-                };
-                let mut st = send_once(s.addr, &req);
-                if st == 0 {
-                    // no response at all (reset / timeout on a loaded machine):
-                    // one more attempt, reported in the tags
-                    retried = true;
-                    s.ctx().log.lock().unwrap().remove(&id);
-                    st = send_once(s.addr, &req);
-                }
-                let h = s.ctx().log.lock().unwrap().remove(&id).unwrap_or(HObs::Refused(st));
-                let healthy = s.healthy();
+                let (st, h, healthy, r) = live_run(s, *x, &path, &bytes, f, None);
+                retried |= r;
                 res.push((st, h, healthy));
             }
             let cap = eff(*ov, *def);
@@ -884,6 +1071,7 @@ fn run_case(w: &mut World, case: &Case, group: &'static str, out: &mut dyn Write
                 if ov.is_some() { "override".into() } else { "default".into() },
                 format!("default={}", def),
             ];
+            tags.extend(ctags.iter().cloned());
             let mut kinds: BTreeSet<String> = BTreeSet::new();
             for f in runs {
                 kinds.insert(match f {
@@ -913,6 +1101,112 @@ fn run_case(w: &mut World, case: &Case, group: &'static str, out: &mut dyn Write
                     coq,
                     tags,
                     nontrivial: !bytes.is_empty() || runs.len() > 1,
+                },
+            );
+        }
+        Case::Abs { x, ov, def, body, runs, tags: ctags } => {
+            let total: usize = body
+                .iter()
+                .map(|g| match g {
+                    Seg::Lit(b) => b.len(),
+                    Seg::Rep(_, n) => *n,
+                    Seg::Pat(_, _, n) => *n,
+                })
+                .sum();
+            // the region a handler may be shown: the pattern segment (the whole
+            // body, the decoded string, the multipart field)
+            let region = body
+                .iter()
+                .find_map(|g| if let Seg::Pat(a, d, n) = g { Some(Region::new(*a, *d, *n)) } else { None })
+                .expect("large body has a pattern segment");
+            let is_virtual = total > (64 << 20);
+            let vbody = if is_virtual {
+                assert!(body.len() == 1, "a virtual body is one pattern segment");
+                VBody::Virt(region.clone())
+            } else {
+                VBody::Mat(Bytes::from(expand(body)))
+            };
+            let s = w.servers.get_mut(def).expect("server");
+            let path = format!("/{}/{}", x.name(), ov_path(*ov));
+            // direct runs as one batch
+            let djobs: Vec<DirectJob> = runs
+                .iter()
+                .filter_map(|r| match r {
+                    AbsRunSpec::Direct { frames } => Some(DirectJob {
+                        x: *x,
+                        ov: *ov,
+                        body: vbody.clone(),
+                        cuts: frames
+                            .iter()
+                            .flat_map(|(sz, k)| std::iter::repeat(Cut::D(*sz)).take(*k))
+                            .collect(),
+                        hdr: 0,
+                        expect: Some(region.clone()),
+                    }),
+                    _ => None,
+                })
+                .collect();
+            let nd = djobs.len();
+            let mut dres = match catch(|| s.direct(djobs)) {
+                Ok(r) => r,
+                Err(_) => (0..nd).map(|_| (HObs::Panic, 0)).collect(),
+            }
+            .into_iter();
+            let mut coq_runs = vec![];
+            let mut obs = vec![];
+            let mut retried = false;
+            for r in runs {
+                match r {
+                    AbsRunSpec::Direct { frames } => {
+                        let (h, p) = dres.next().unwrap();
+                        coq_runs.push(format!(
+                            "ARun (Some (ds (rl {}))) 0 {} {} true",
+                            g_list(frames, |(sz, k)| format!("({},{})", sz, k)),
+                            g_hobs(&h),
+                            p
+                        ));
+                        obs.push(json!({"h": h, "polled": p}));
+                    }
+                    AbsRunSpec::Live { framing } => {
+                        let bytes = match &vbody {
+                            VBody::Mat(b) => b.clone(),
+                            VBody::Virt(_) => panic!("a virtual body cannot be sent over the wire"),
+                        };
+                        let (st, h, healthy, rt) = live_run(s, *x, &path, &bytes, framing, Some(region.clone()));
+                        retried |= rt;
+                        coq_runs.push(format!("ARun None {} {} 0 {}", st, g_hobs(&h), g_bool(healthy)));
+                        obs.push(json!({"status": st, "h": h, "healthy": healthy}));
+                    }
+                }
+            }
+            let cap = eff(*ov, *def);
+            let coq = format!(
+                "CAbs {} {} {} {} {}",
+                x.coq(),
+                g_opt(ov, |n| n.to_string()),
+                def,
+                g_segs(body),
+                g_list(&coq_runs, |r| r.clone())
+            );
+            let mut tags = vec![
+                format!("abstract:{}", x.name()),
+                "large:abstract-judge".to_string(),
+                size_tag(total, cap),
+                if ov.is_some() { "override".into() } else { "default".into() },
+            ];
+            tags.extend(ctags.iter().cloned());
+            if retried {
+                tags.push("retried-after-no-response".into());
+            }
+            emit(
+                out,
+                &Line {
+                    group,
+                    case: serde_json::to_value(case).unwrap(),
+                    obs: json!({ "runs": obs }),
+                    coq,
+                    tags,
+                    nontrivial: true,
                 },
             );
         }
@@ -1028,6 +1322,390 @@ fn live_framings(rng: &mut Rng, len: usize, cap: u64, thorough: bool) -> Vec<Fra
     v
 }
 
+// ---------------------------------------------------- the large-scope slice
+//
+// Deterministic (no seed): every size-like dimension is pushed across the
+// usual round numbers.  Bodies up to 64 KiB+1 go through the ordinary cases
+// (Coq expands the body and recomputes the checksums); larger ones through
+// `Case::Abs` (lengths only in Coq, bytes compared here).
+
+const ROUND: [u64; 18] = [
+    255, 256, 257, 1023, 1024, 1025, 4095, 4096, 4097, 8191, 8192, 8193, 16383, 16384, 16385, 65535,
+    65536, 65537,
+];
+const HUGE: [(u64, &str); 7] = [
+    (4294967294, "u32max-1"),
+    (4294967295, "u32max"),
+    (4294967296, "u32max+1"),
+    (9223372036854775806, "isizemax-1"),
+    (9223372036854775807, "isizemax=i64max"),
+    (9223372036854775808, "isizemax+1"),
+    (u64::MAX, "usizemax"),
+];
+const MIB: usize = 1 << 20;
+
+/// how cap `cap` is configured: mostly an override (above or below the
+/// server default), for two round sizes the server default itself
+fn cfg_large(cap: u64) -> (Option<u64>, u64) {
+    if cap == 4096 || cap == 65536 {
+        (None, cap)
+    } else if cap % 2 == 0 {
+        (Some(cap), 1)
+    } else {
+        (Some(cap), 1024)
+    }
+}
+
+fn rel_tag(len: usize, cap: u64) -> String {
+    let l = len as u64;
+    format!(
+        "large:len:{}",
+        if l + 1 == cap {
+            "cap-1"
+        } else if l == cap {
+            "cap"
+        } else if Some(l) == cap.checked_add(1) {
+            "cap+1"
+        } else if l < cap {
+            "<cap"
+        } else {
+            ">>cap"
+        }
+    )
+}
+
+fn blocks(len: usize, sz: usize) -> Vec<usize> {
+    let mut v = vec![sz; len / sz];
+    if len % sz != 0 {
+        v.push(len % sz);
+    }
+    v
+}
+
+/// frame lists for a body of `len` bytes around cap `cap`, with what each exercises
+fn large_direct_runs(len: usize, cap: u64) -> (Vec<DRunSpec>, Vec<String>) {
+    let mut runs: Vec<Vec<usize>> = vec![];
+    let mut tags: BTreeSet<String> = BTreeSet::new();
+    let over = len as u64 > cap;
+    let c = cap.min(1 << 40) as usize;
+    runs.push(vec![len]);
+    tags.insert("large:frames:1".into());
+    if over {
+        tags.insert("large:cross:first-frame".into());
+        tags.insert(if len == c + 1 { "large:frame>cap:by-1".into() } else { "large:frame>cap:by-a-lot".into() });
+    }
+    if len >= 2 {
+        runs.push(vec![len - 1, 1]);
+        runs.push(vec![1, len - 1]);
+        tags.insert("large:frames:2".into());
+        if len == c + 1 {
+            tags.insert("large:cross:frame-after-exact-fill".into());
+        }
+    }
+    if over && c >= 2 && len > c {
+        runs.push(vec![c - 1, len - (c - 1)]);
+        tags.insert("large:cross:last-frame-straddles".into());
+    }
+    if len == c {
+        runs.push(vec![c, 0]);
+        tags.insert("large:boundary:empty-frame-after-exact-fill".into());
+    }
+    for sz in [4096usize, 8192] {
+        if len > sz {
+            runs.push(blocks(len, sz));
+            tags.insert(format!("large:frame-size:{}", sz));
+        }
+    }
+    if len >= 4 {
+        runs.push(vec![len / 2, len - len / 2]);
+    }
+    runs.dedup();
+    (
+        runs.into_iter().map(|p| DRunSpec { cuts: p.into_iter().map(Cut::D).collect(), hdr: 0 }).collect(),
+        tags.into_iter().collect(),
+    )
+}
+
+fn large_live_runs(len: usize, cap: u64) -> (Vec<Framing>, Vec<String>) {
+    let c = cap.min(1 << 40) as usize;
+    let mut v = vec![Framing::Cl, Framing::Chunked { sizes: vec![len], kind: "one-big".into() }];
+    if len > c && c >= 1 {
+        v.push(Framing::Chunked { sizes: vec![c, len - c], kind: "cut-at-cap".into() });
+    }
+    if c >= 2 && len > c - 1 {
+        v.push(Framing::Chunked { sizes: vec![c - 1, len - (c - 1)], kind: "cut-below-cap".into() });
+    }
+    for sz in [4096usize, 8192] {
+        if len > sz {
+            v.push(Framing::Chunked { sizes: blocks(len, sz), kind: format!("blocks-{}", sz) });
+        }
+    }
+    (v, vec!["large:framing:content-length".into(), "large:framing:chunked".into()])
+}
+
+fn gen_large(opts: &Opts, cases: &mut Vec<(&'static str, Case)>) {
+    let th = opts.thorough;
+    let pick = |k: usize, n: usize| -> Vec<X> {
+        // thorough: every extractor; quick: n of them, rotating with k
+        if th {
+            ALLX.to_vec()
+        } else {
+            (0..n).map(|i| ALLX[(k + 2 * i) % 5]).collect()
+        }
+    };
+
+    // A. cap at every round size, body cap-1 / cap / cap+1, direct and live
+    for (i, cap) in ROUND.iter().enumerate() {
+        let (ov, def) = cfg_large(*cap);
+        for (j, len) in [*cap as usize - 1, *cap as usize, *cap as usize + 1].into_iter().enumerate() {
+            let base = vec![format!("large:cap:{}", cap), rel_tag(len, *cap)];
+            for x in pick(i + j, 1) {
+                let body = body_for(x, len, if x == X::Json { j } else { 0 }, (i + j) as u64, 7);
+                let (runs, mut tags) = large_direct_runs(len, *cap);
+                tags.extend(base.iter().cloned());
+                cases.push(("large-direct", Case::Direct { x, ov, def, body, runs, tags }));
+            }
+            for x in pick(i + j + 2, 1) {
+                let body = body_for(x, len, 0, (i + 2 * j) as u64, 11);
+                let (runs, mut tags) = large_live_runs(len, *cap);
+                tags.extend(base.iter().cloned());
+                cases.push(("large-live", Case::Live { x, ov, def, body, runs, via_macro: false, tags }));
+            }
+        }
+    }
+
+    // B. number of frames: N one-byte frames against cap N-1 (the last frame
+    //    crosses) and cap N (exact fill)
+    for (i, n) in [1usize, 2, 255, 256, 257, 4097, 65537].into_iter().enumerate() {
+        for (j, cap) in [n as u64 - 1, n as u64].into_iter().enumerate() {
+            let (ov, def) = (Some(cap), 1024);
+            let mut xs = vec![X::Streaming];
+            for x in pick(i + j, 1) {
+                if !xs.contains(&x) {
+                    xs.push(x);
+                }
+            }
+            let base = vec![format!("large:frames:{}", n), rel_tag(n, cap)];
+            for x in xs {
+                let body = body_for(x, n, 0, i as u64, 5);
+                let ones: Vec<Cut> = vec![Cut::D(1); n];
+                let mut with_trailers = ones.clone();
+                with_trailers.push(Cut::T);
+                let runs = vec![DRunSpec { cuts: ones, hdr: 0 }, DRunSpec { cuts: with_trailers, hdr: 0 }];
+                let mut tags = base.clone();
+                if j == 0 {
+                    tags.push("large:cross:last-of-many-frames".into());
+                }
+                cases.push(("large-direct", Case::Direct { x, ov, def, body: body.clone(), runs, tags: tags.clone() }));
+                if n <= 4097 || th {
+                    let runs = vec![
+                        Framing::Cl,
+                        Framing::Chunked { sizes: vec![1; n], kind: "all-1".into() },
+                    ];
+                    tags.push(format!("large:chunks:{}", n));
+                    cases.push(("large-live", Case::Live { x, ov, def, body, runs, via_macro: false, tags }));
+                }
+            }
+        }
+    }
+
+    // C. one frame larger than the cap by a lot (64 KiB+1 against tiny caps)
+    for (i, cap) in [0u64, 1, 256, 1024].into_iter().enumerate() {
+        let (ov, def) = if cap == 1024 { (None, 1024) } else { (Some(cap), 1024) };
+        for x in pick(i, 2) {
+            let body = body_for(x, 65537, 0, 3, 7);
+            let (runs, mut tags) = large_direct_runs(65537, cap);
+            tags.push(format!("large:cap:{}", cap));
+            tags.push("large:frame>cap:by-a-lot".into());
+            cases.push(("large-direct", Case::Direct { x, ov, def, body, runs, tags }));
+        }
+    }
+
+    // F. huge caps (around u32::MAX, isize::MAX = i64::MAX, usize::MAX) with
+    //    small bodies: nothing may truncate, wrap or pre-allocate the cap
+    for (i, (cap, name)) in HUGE.iter().enumerate() {
+        let (ov, def) = (Some(*cap), 1);
+        let base = vec![format!("large:cap:{}", name)];
+        for x in pick(i, 2) {
+            for len in [0usize, 257] {
+                let body = body_for(x, len, 0, i as u64, 7);
+                let mut runs = vec![DRunSpec { cuts: vec![], hdr: 0 }];
+                if len > 0 {
+                    runs = vec![
+                        DRunSpec { cuts: vec![Cut::D(len)], hdr: 0 },
+                        DRunSpec { cuts: vec![Cut::D(1); len], hdr: 0 },
+                        DRunSpec { cuts: vec![Cut::D(256), Cut::D(1)], hdr: 0 },
+                    ];
+                }
+                cases.push(("large-direct", Case::Direct { x, ov, def, body, runs, tags: base.clone() }));
+            }
+        }
+        for x in pick(i + 1, 1) {
+            let body = body_for(x, 65537, 0, 9, 5);
+            let runs = vec![
+                DRunSpec { cuts: vec![Cut::D(65537)], hdr: 0 },
+                DRunSpec { cuts: blocks(65537, 8192).into_iter().map(Cut::D).collect(), hdr: 0 },
+            ];
+            cases.push(("large-direct", Case::Direct { x, ov, def, body, runs, tags: base.clone() }));
+        }
+        for x in pick(i + 3, 1) {
+            let body = body_for(x, 257, 0, 1, 3);
+            let runs = vec![
+                Framing::Cl,
+                Framing::Chunked { sizes: vec![257], kind: "one-big".into() },
+                Framing::Chunked { sizes: vec![1; 257], kind: "all-1".into() },
+            ];
+            let mut tags = base.clone();
+            tags.push("large:framing:content-length".into());
+            tags.push("large:framing:chunked".into());
+            cases.push(("large-live", Case::Live { x, ov, def, body, runs, via_macro: false, tags }));
+        }
+    }
+
+    // G. bodies of 1 MiB (quick and thorough), 1 MiB +- 1 caps and 16 MiB+1
+    //    (thorough): judged on lengths, bytes compared in the harness
+    let abs_runs = |len: usize, cap: u64, live: bool| -> Vec<AbsRunSpec> {
+        let c = cap.min(1 << 40) as usize;
+        let rle = |sz: usize| -> Vec<(usize, usize)> {
+            let mut v = vec![(sz, len / sz)];
+            if len % sz != 0 {
+                v.push((len % sz, 1));
+            }
+            v
+        };
+        let mut v = vec![AbsRunSpec::Direct { frames: vec![(len, 1)] }];
+        if len > c && c >= 1 {
+            v.push(AbsRunSpec::Direct { frames: vec![(c, 1), (len - c, 1)] });
+            if c >= 2 {
+                v.push(AbsRunSpec::Direct { frames: vec![(c - 1, 1), (len - c + 1, 1)] });
+            }
+        } else {
+            v.push(AbsRunSpec::Direct { frames: vec![(len - 1, 1), (1, 1)] });
+        }
+        v.push(AbsRunSpec::Direct { frames: rle(8192) });
+        v.push(AbsRunSpec::Direct { frames: rle(65536) });
+        if live {
+            v.push(AbsRunSpec::Live { framing: Framing::Cl });
+            v.push(AbsRunSpec::Live { framing: Framing::Chunked { sizes: vec![len], kind: "one-big".into() } });
+            v.push(AbsRunSpec::Live { framing: Framing::Chunked { sizes: blocks(len, 65536), kind: "blocks-65536".into() } });
+        }
+        v
+    };
+    let abs_tags = |cap_name: &str, len: usize, cap: u64, body_name: &str| -> Vec<String> {
+        vec![
+            format!("large:cap:{}", cap_name),
+            rel_tag(len, cap),
+            format!("large:body:{}", body_name),
+            "large:frame-size:8192".into(),
+            "large:frame-size:65536".into(),
+            "large:framing:content-length".into(),
+            "large:framing:chunked".into(),
+        ]
+    };
+    let mib_caps: Vec<(u64, &str)> = if th {
+        vec![(MIB as u64 - 1, "1MiB-1"), (MIB as u64, "1MiB"), (MIB as u64 + 1, "1MiB+1")]
+    } else {
+        vec![(MIB as u64, "1MiB")]
+    };
+    for (cap, name) in &mib_caps {
+        for len in [*cap as usize - 1, *cap as usize, *cap as usize + 1] {
+            for x in ALLX {
+                let body = body_for(x, len, 0, 5, 7);
+                cases.push((
+                    "large-abstract",
+                    Case::Abs {
+                        x,
+                        ov: Some(*cap),
+                        def: 1,
+                        body,
+                        runs: abs_runs(len, *cap, true),
+                        tags: abs_tags(name, len, *cap, "~1MiB"),
+                    },
+                ));
+            }
+        }
+    }
+    // a 1 MiB frame / body against the default limit 1024: larger by a lot
+    for x in ALLX {
+        let body = body_for(x, MIB, 0, 2, 5);
+        let mut tags = abs_tags("1024", MIB, 1024, "1MiB");
+        tags.push("large:frame>cap:by-a-lot".into());
+        cases.push((
+            "large-abstract",
+            Case::Abs { x, ov: None, def: 1024, body, runs: abs_runs(MIB, 1024, true), tags },
+        ));
+    }
+    if th {
+        let w = 16 * MIB + 1;
+        for (cap, name) in [(1024u64, "1024"), (w as u64 - 1, "16MiB"), (w as u64, "16MiB+1"), (w as u64 + 1, "16MiB+2")] {
+            let (ov, def) = if cap == 1024 { (None, 1024) } else { (Some(cap), 1) };
+            for x in ALLX {
+                let body = body_for(x, w, 0, 4, 11);
+                cases.push((
+                    "large-abstract",
+                    Case::Abs { x, ov, def, body, runs: abs_runs(w, cap, true), tags: abs_tags(name, w, cap, "16MiB+1") },
+                ));
+            }
+        }
+        // 4 GiB through the streaming extractor (virtual body of 1 MiB frames):
+        // a byte counter narrower than 64 bits would wrap here
+        for (cap, name) in &HUGE[..3] {
+            for len in [*cap as usize - 1, *cap as usize, *cap as usize + 1] {
+                let body = vec![Seg::Pat(7, 5, len)];
+                let mut frames = vec![(MIB, len / MIB)];
+                if len % MIB != 0 {
+                    frames.push((len % MIB, 1));
+                }
+                let mut tags = vec![
+                    format!("large:cap:{}", name),
+                    rel_tag(len, *cap),
+                    "large:body:4GiB".to_string(),
+                    format!("large:frames:{}", len / MIB + 1),
+                    "large:frame-size:1MiB".to_string(),
+                ];
+                if len as u64 > *cap {
+                    tags.push("large:cross:last-of-many-frames".into());
+                }
+                cases.push((
+                    "large-abstract",
+                    Case::Abs {
+                        x: X::Streaming,
+                        ov: Some(*cap),
+                        def: 1,
+                        body,
+                        runs: vec![AbsRunSpec::Direct { frames }],
+                        tags,
+                    },
+                ));
+            }
+        }
+    }
+
+    // X. the length-only judge checked against the ordinary one: the same
+    //    direct runs, at sizes both can handle, judged both ways
+    for cap in [255u64, 256, 257, 65535, 65536, 65537] {
+        let (ov, def) = cfg_large(cap);
+        for x in [X::Streaming, X::Untyped, X::Json, X::Form, X::Multipart] {
+            if !th && !(x == X::Streaming || x == X::Multipart) {
+                continue;
+            }
+            for len in [cap as usize, cap as usize + 1] {
+                let body = body_for(x, len, 0, 6, 7);
+                let (druns, _) = large_direct_runs(len, cap);
+                let runs: Vec<AbsRunSpec> = druns
+                    .iter()
+                    .map(|r| AbsRunSpec::Direct {
+                        frames: r.cuts.iter().map(|c| if let Cut::D(n) = c { (*n, 1) } else { unreachable!() }).collect(),
+                    })
+                    .collect();
+                let tags = vec![format!("large:cap:{}", cap), rel_tag(len, cap), "large:abstract-vs-ordinary".to_string()];
+                cases.push(("large-cross", Case::Direct { x, ov, def, body: body.clone(), runs: druns, tags: tags.clone() }));
+                cases.push(("large-cross", Case::Abs { x, ov, def, body, runs, tags }));
+            }
+        }
+    }
+}
+
 fn gen_cases(opts: &Opts) -> Vec<(&'static str, Case)> {
     let mut rng = Rng::new(opts.seed);
     let mut cases: Vec<(&'static str, Case)> = vec![];
@@ -1053,7 +1731,7 @@ fn gen_cases(opts: &Opts) -> Vec<(&'static str, Case)> {
                 if len == 0 {
                     runs.push(DRunSpec { cuts: vec![Cut::D(0)], hdr: 0 });
                 }
-                cases.push(("direct-compositions", Case::Direct { x, ov, def, body, runs }));
+                cases.push(("direct-compositions", Case::Direct { x, ov, def, body, runs, tags: vec![] }));
             }
         }
     }
@@ -1089,7 +1767,7 @@ fn gen_cases(opts: &Opts) -> Vec<(&'static str, Case)> {
             lens.sort();
             for len in lens {
                 let body = body_for(x, len, 0, 3 + cap, 5);
-                cases.push(("direct-frame-lists", Case::Direct { x, ov, def, body, runs: by_len.remove(&len).unwrap() }));
+                cases.push(("direct-frame-lists", Case::Direct { x, ov, def, body, runs: by_len.remove(&len).unwrap(), tags: vec![] }));
             }
         }
     }
@@ -1152,7 +1830,7 @@ fn gen_cases(opts: &Opts) -> Vec<(&'static str, Case)> {
             let hdr = if rng.chance(1, 6) { rng.range(1, 4) as u8 } else { 0 };
             runs.push(DRunSpec { cuts, hdr });
         }
-        cases.push(("direct-sampled", Case::Direct { x, ov, def, body, runs }));
+        cases.push(("direct-sampled", Case::Direct { x, ov, def, body, runs, tags: vec![] }));
     }
 
     // -- live, exhaustive: cap 0..8, every length <= cap+3, every composition
@@ -1166,7 +1844,7 @@ fn gen_cases(opts: &Opts) -> Vec<(&'static str, Case)> {
                 for p in compositions(len) {
                     runs.push(Framing::Chunked { sizes: p, kind: "composition".into() });
                 }
-                cases.push(("live-compositions", Case::Live { x, ov, def, body, runs, via_macro: false }));
+                cases.push(("live-compositions", Case::Live { x, ov, def, body, runs, via_macro: false, tags: vec![] }));
             }
         }
     }
@@ -1188,7 +1866,7 @@ fn gen_cases(opts: &Opts) -> Vec<(&'static str, Case)> {
                     let pad = if x == X::Json && len > 12 { rng.range(0, 5) } else { 0 };
                     let body = body_for(x, len, pad, rng.below(36) as u64, 1 + rng.below(11) as u64);
                     let runs = live_framings(&mut rng, len, cap, opts.thorough);
-                    cases.push(("live-grid", Case::Live { x, ov, def, body, runs, via_macro: false }));
+                    cases.push(("live-grid", Case::Live { x, ov, def, body, runs, via_macro: false, tags: vec![] }));
                 }
             }
         }
@@ -1203,7 +1881,7 @@ fn gen_cases(opts: &Opts) -> Vec<(&'static str, Case)> {
             for k in 1..=8usize {
                 runs.push(Framing::Chunked { sizes: vec![len - k, k], kind: "split-terminator".into() });
             }
-            cases.push(("live-grid", Case::Live { x: X::Multipart, ov, def, body, runs, via_macro: false }));
+            cases.push(("live-grid", Case::Live { x: X::Multipart, ov, def, body, runs, via_macro: false, tags: vec![] }));
         }
     }
     // the macro's request_body_max_bytes argument (5) on servers with a
@@ -1212,9 +1890,10 @@ fn gen_cases(opts: &Opts) -> Vec<(&'static str, Case)> {
         for len in 3..=8usize {
             let body = body_for(X::Untyped, len, 0, 1, 3);
             let runs = live_framings(&mut rng, len, 5, false);
-            cases.push(("live-macro", Case::Live { x: X::Untyped, ov: Some(5), def, body, runs, via_macro: true }));
+            cases.push(("live-macro", Case::Live { x: X::Untyped, ov: Some(5), def, body, runs, via_macro: true, tags: vec![] }));
         }
     }
+    gen_large(opts, &mut cases);
     // spread the expensive cases over the driver's shards (fixed permutation)
     Rng::new(0xC11).shuffle(&mut cases);
     cases
@@ -1230,33 +1909,37 @@ fn main() {
             None => gen_cases(opts),
         };
         // one server per default value in use, each with an endpoint for every
-        // override in use
-        let mut defs: BTreeSet<u64> = BTreeSet::new();
-        let mut ovs: BTreeSet<Option<u64>> = BTreeSet::new();
-        ovs.insert(None);
+        // override used with that default
+        let mut need: std::collections::BTreeMap<u64, BTreeSet<Option<u64>>> = Default::default();
+        let mut select_ovs: BTreeSet<Option<u64>> = BTreeSet::new();
+        select_ovs.insert(None);
         for (_, c) in &cases {
             match c {
                 Case::Select { ov, def, .. } => {
-                    defs.insert(*def);
-                    ovs.insert(*ov);
+                    need.entry(*def).or_default().insert(*ov);
+                    select_ovs.insert(*ov);
                 }
                 Case::Direct { def, .. } => {
-                    defs.insert(*def);
+                    need.entry(*def).or_default();
                 }
                 Case::Live { ov, def, via_macro, .. } => {
-                    defs.insert(*def);
+                    let e = need.entry(*def).or_default();
                     if !*via_macro {
-                        ovs.insert(*ov);
+                        e.insert(*ov);
                     }
+                }
+                Case::Abs { ov, def, .. } => {
+                    need.entry(*def).or_default().insert(*ov);
                 }
             }
         }
         let rt = rt();
         let mut servers = HashMap::new();
-        for d in &defs {
+        for (d, ovs) in need.iter_mut() {
+            ovs.insert(None);
             let srv = rt.block_on(async {
                 start_server(
-                    build_api(&ovs),
+                    build_api(ovs),
                     Ctx::default(),
                     ServerOpts { default_request_body_max_bytes: *d as usize, ..Default::default() },
                 )
@@ -1264,7 +1947,7 @@ fn main() {
             let addr = srv.local_addr();
             servers.insert(*d, Server { srv, addr, next_id: 0 });
         }
-        let mut w = World { servers, router_api_ovs: ovs.clone() };
+        let mut w = World { servers, router_api_ovs: select_ovs };
         for (g, c) in &cases {
             run_case(&mut w, c, g, out);
         }
